@@ -486,8 +486,47 @@ def run_refuse(ctx, g, rng):
     rel = "validate_prepare_data refusals=Data.merge errors"
     c = gen_sources(rng, False, nmax=5)
     nsurv = c["nsurv"]
-    which = str(rng.choice(["too-few-offsets", "too-many-offsets", "cov-source", "not-rvdata", "duplicate-free-ok"]))
+    which = str(rng.choice(["too-few-offsets", "too-many-offsets", "cov-source", "not-rvdata", "duplicate-free-ok",
+                            "keys-not-distinguishable"]))
+    if g["index"] % 4 == 3:
+        which = "keys-not-distinguishable"
     data = build_data(c)
+    if which == "keys-not-distinguishable":
+        # dict keys that numpy cannot tell apart once they sit in one array (1 and '1'), or that never equal themselves (nan):
+        # accepted only if every source still gets its own label
+        ds = list(data.values()) if isinstance(data, dict) else list(data)
+        variant = str(rng.choice(["int-and-str", "nan"]))
+        keys = ([1, "1"] + [f"k{i}" for i in range(nsurv - 2)]) if variant == "int-and-str" else ([1.0, float("nan")] + [float(i + 2) for i in range(nsurv - 2)])
+        data = dict(zip(keys, ds))
+        noff_try = [nsurv - 1, nsurv - 2]
+        ctx.evaluated(rel, (g["kind"], g["index"]))
+        ctx.count("refuse:keys-not-distinguishable")
+        f0_ = FAC[c["units"][0]]
+        for noff in noff_try:
+            if noff < 0:
+                continue
+            try:
+                ad, ids, tm = validate_prepare_data(data, c["p"], noff)
+            except (ValueError, TypeError):
+                continue
+            # accepted: every source must own one label, and a reference source exists
+            rv_out = np.asarray(ad.rv.to_value(u.Unit(c["units"][0])), dtype="f8") / f0_
+            src_of_row = np.round(rv_out / 1000.0).astype(int) - 1          # recognisable velocities: 1000*(source+1) + index
+            const = np.asarray(tm)[:, : 1 + noff]
+            patterns = {}
+            for s_ in range(nsurv):
+                rows = const[src_of_row == s_]
+                pats = {tuple(r) for r in rows.tolist()}
+                patterns[s_] = pats
+            distinct = len({next(iter(p_)) for p_ in patterns.values() if len(p_) == 1}) == nsurv
+            if noff != nsurv - 1 or not distinct or any(len(p_) != 1 for p_ in patterns.values()):
+                ctx.violation(rel, g, dict(case_input(c), keys=[repr(k) for k in keys], n_offsets=noff), dict(accepted=True,
+                              labels=[repr(x) for x in np.unique(np.asarray(ids).astype(str))]), None,
+                              "each source must keep its own label (one offset column per non-reference source): with keys that "
+                              f"cannot be told apart after numpy coerces them ({variant}) the sources were accepted with "
+                              f"{noff} offsets for {nsurv} sources and share / lose labels", tags=dict(what="keys-collapse", variant=variant))
+                return
+        return
     noff = nsurv - 1
     tb = [src_bmjd(c, s) for s in range(nsurv)]
     f0 = FAC[c["units"][0]]
